@@ -43,7 +43,9 @@ var c08Refs = []string{
 	"registry.example/app", "registry.example/app/sub", "registry.example/app2", "registry.example:5000/app", "Registry.example/app", "other.io/app", "registry.example/ap", "registry.example/app/sub/deeper",
 	"registry.example/zzz", "registry.example/app/su", "registry.example/a", "REGISTRY.EXAMPLE/app", "registry.example:5001/app", "registry.example/app/sub/deeper/still",
 }
-var c08Malformed = []string{"registry.example/app:v1", "registry.example/app", "", "@sha256:x", "registry.example/App@sha256:abc", "no-slash@sha256:abc", "registry.example/app:v1@", "*@sha256:abc"}
+var c08Malformed = []string{"registry.example/app:v1", "registry.example/app", "", "@sha256:x", "registry.example/App@sha256:abc", "no-slash@sha256:abc", "registry.example/app:v1@", "*@sha256:abc",
+	// more than one "@": the repository path is what precedes the LAST one, and that is no repository path here
+	"registry.example/app@sha256:abc@sha256:def", "registry.example/app@@sha256:abc", "registry.example/app/sub@x@sha256:abc"}
 
 func (c08) Gen(r *rand.Rand, tier string, idx int) *core.Plan {
 	w := map[string]int64{}
